@@ -220,7 +220,8 @@ def run(ctx):
     pts = I.critical_points(consts)
 
     def pred(x):
-        it = I.Interp(P, stubs={"mbuf_complete_payload_len": lambda a: x}, fields={"wire_len": 4 + min(x, 16)})
+        # the decoder itself is folded (conversions on its way out included): x is the 32-bit value on the wire
+        it = I.Interp(P, stubs={"ntohl": lambda a: x, "__builtin_bswap32": lambda a: x, "memcpy": lambda *a: 0}, fields={"wire_len": 4 + min(x, 16)})
         return it.call(hv, [1]) != 0
     try:
         runs = I.accepted_intervals(pred, pts)
